@@ -210,7 +210,30 @@ pub fn emit_def(u: &Universe, idx: usize, out: &mut String) {
             writeln!(out, "        fn from_dyn(d: &DV) -> Self {{ let l = d.l(); {} }}", ctor_expr(&d.name, *shape, fields)).unwrap();
         }
         DefKind::Enum { variants } => {
-            out.push_str("        fn to_dyn(&self) -> DV { match self {\n");
+            // Enums with an explicit integer repr can be filled by raw memory copies (packed fast
+            // path); look at the raw tag first, so that an invalid in-memory value is reported
+            // as data instead of being undefined behaviour in the `match`.
+            let mut raw_check = String::new();
+            if let Repr::Int(p) | Repr::CInt(p) = d.repr {
+                let mut prev: i128 = -1;
+                let mut valid: Vec<String> = vec![];
+                for v in variants.iter() {
+                    let val = match v.discr {
+                        Some(x) => x as i128,
+                        None => prev + 1,
+                    };
+                    prev = val;
+                    valid.push(format!("{}", val));
+                }
+                if d.params == 0 && valid.len() <= 300 {
+                    raw_check = format!(
+                        "let raw = unsafe {{ std::ptr::read_volatile(self as *const Self as *const {ty}) }} as i128; if ![{vals}].contains(&raw) {{ return DV::V(u32::MAX - 1, vec![DV::N(raw as u128)]); }} ",
+                        ty = p.rust(),
+                        vals = valid.join(", ")
+                    );
+                }
+            }
+            writeln!(out, "        fn to_dyn(&self) -> DV {{ {}match self {{", raw_check).unwrap();
             for (vi, v) in variants.iter().enumerate() {
                 let binds: Vec<String> = v.fields.iter().enumerate().map(|(k, f)| if f.is_live() { format!("x{}", k) } else { "_".to_string() }).collect();
                 let vals: Vec<String> = v
